@@ -3,6 +3,7 @@
 // push- and/or pop-clock edge.
 //
 //   C15_fifo tie <seed> <quick|thorough|search> <out>   generated cases (every choice from <seed>)
+//   C15_fifo rel <seed> <quick|thorough|search> <out>   clock-relation family (same pin / other trigger, multiplier, roots) x generate() scope
 //   C15_fifo replay <out> <C-line tokens...>            one case from its parameter line
 //   C15_fifo gray <out>                                 grayEncode / grayDecode, widths 1..10, all values
 //   C15_fifo other <seed> <quick|thorough> <out>        TransactionalFifo, FifoArray, strm::fifo traces
@@ -28,6 +29,7 @@
 #include <gatery/scl/stream/streamFifo.h>
 #include <gatery/scl/cdc.h>
 #include <gatery/hlim/NodeGroup.h>
+#include <gatery/hlim/supportNodes/Node_CDC.h>
 #include <gatery/scl/arch/intel/IntelDevice.h>
 #include <gatery/scl/arch/xilinx/XilinxDevice.h>
 #include <gatery/scl/arch/xilinx/FifoPattern.h>
@@ -63,6 +65,12 @@ struct Params {
 	std::vector<std::pair<int, int>> phases; // push / pop request probability in eighths
 	size_t plen = 0;         // phase length in periods of the slower clock (0: derive from depth)
 	size_t w = 8;
+	// relation of the pop clock to the push clock: indep (two root clocks, fp/fo/trP/trO), fall / both (pop = push.deriveClock with
+	// FALLING / RISING_AND_FALLING trigger: same pin), mul2 / div2 (derived with frequency multiplier: own pin), swapfall (push is the
+	// falling-edge derivative of the pop clock)
+	std::string rel = "indep";
+	char genScope = 'P';     // clock scope active when generate() is called: P push, O pop, T a third clock
+	bool mid = false;        // the pop request additionally changes in the middle of the pop clock's cycle (at the push clock's edge)
 };
 
 scl::FifoLatency mkLatency(const Params &p)
@@ -110,7 +118,17 @@ void runCase(const Params &p, std::ostream &out)
 		if (p.trO == 'F') cfgO.triggerEvent = ClockConfig::TriggerEvent::FALLING;
 		rdo.emplace(cfgO);
 	}
-	Clock rd = p.dual ? *rdo : wr;
+	if (p.rel == "fall") rdo.emplace(wr.deriveClock({ .triggerEvent = ClockConfig::TriggerEvent::FALLING }));
+	else if (p.rel == "both") rdo.emplace(wr.deriveClock({ .triggerEvent = ClockConfig::TriggerEvent::RISING_AND_FALLING }));
+	else if (p.rel == "mul2") rdo.emplace(wr.deriveClock({ .frequencyMultiplier = hlim::ClockRational(2, 1), .name = "rd2" }));
+	else if (p.rel == "div2") rdo.emplace(wr.deriveClock({ .frequencyMultiplier = hlim::ClockRational(1, 2), .name = "rdh" }));
+	Clock rd0 = p.dual ? *rdo : wr;
+	// swapfall: the push port runs on the falling-edge derivative, the pop port on the root clock
+	std::optional<Clock> sw;
+	if (p.rel == "swapfall") sw.emplace(wr.deriveClock({ .triggerEvent = ClockConfig::TriggerEvent::FALLING }));
+	Clock rd = p.rel == "swapfall" ? wr : rd0;
+	if (p.rel == "swapfall") wr = *sw;
+	Clock third({ .absoluteFrequency = hlim::ClockRational(77'000'000, 1), .name = "third" });
 	BitWidth w{ p.w };
 
 	XFifo fifo{ p.minDepth, UInt{ w }, mkLatency(p) };
@@ -136,9 +154,11 @@ void runCase(const Params &p, std::ostream &out)
 	}
 	{
 		// single clock: generate() builds its pointer delay registers in the ambient clock scope
-		ClockScope cs(wr);
+		ClockScope cs(p.genScope == 'O' ? rd : p.genScope == 'T' ? third : wr);
 		fifo.generate();
 	}
+	size_t nCdc = 0;
+	for (auto &n : design.getCircuit().getNodes()) if (dynamic_cast<hlim::Node_CDC*>(n.get())) nCdc++;
 	size_t L = fifo.choice().latency_writeToEmpty;
 	size_t L2 = fifo.choice().latency_readToFull;
 	bool single = fifo.choice().singleClock;
@@ -146,17 +166,19 @@ void runCase(const Params &p, std::ostream &out)
 	if (p.pp) design.postprocess();
 
 	size_t plen = p.plen ? p.plen : 2 * depth + 2 * L + 6;
-	uint64_t fslow = std::min(p.fp, p.dual ? p.fo : p.fp) * 1'000'000;
-	hlim::ClockRational phaseDur = hlim::ClockRational(plen, 1) / hlim::ClockRational(fslow, 1);
-	hlim::ClockRational total = phaseDur * hlim::ClockRational(p.phases.size(), 1) + hlim::ClockRational(2 * L + 8, 1) / hlim::ClockRational(fslow, 1);
+	hlim::ClockRational fslow = std::min(wr.absoluteFrequency(), rd.absoluteFrequency());
+	hlim::ClockRational phaseDur = hlim::ClockRational(plen, 1) / fslow;
+	hlim::ClockRational total = phaseDur * hlim::ClockRational(p.phases.size(), 1) + hlim::ClockRational(2 * L + 8, 1) / fslow;
 
 	out << "C " << p.id << " k=" << k << " L=" << L << " dual=" << (single ? 0 : 1) << " lvlF=" << p.lvlF << " lvlE=" << p.lvlE
 		<< " | depth=" << depth << " L2=" << L2 << " minDepth=" << p.minDepth << " lat=" << p.latKind << p.latVal << " reqDual=" << (p.dual ? 1 : 0)
 		<< " fp=" << p.fp << " fo=" << (p.dual ? p.fo : p.fp) << " trP=" << p.trP << " trO=" << (p.dual ? p.trO : p.trP)
-		<< " pp=" << (p.pp ? 1 : 0) << " seed=" << p.seed << " ph=" << phaseStr(p) << " plen=" << plen << " w=" << p.w << "\n";
+		<< " pp=" << (p.pp ? 1 : 0) << " seed=" << p.seed << " ph=" << phaseStr(p) << " plen=" << plen << " w=" << p.w
+		<< " rel=" << p.rel << " gen=" << p.genScope << " mid=" << (p.mid ? 1 : 0) << " cdc=" << nCdc << "\n";
 
 	sim::ReferenceSimulator s(false);
 	std::vector<Entry> log;
+	bool popDriven = false;   // value currently on the pop request pin
 	bool pushStarted = false, popStarted = false;
 	auto phaseOf = [&]() -> int {
 		auto t = s.getCurrentSimulationTime();
@@ -183,20 +205,24 @@ void runCase(const Params &p, std::ostream &out)
 			if (ph >= 0 && pushStarted && popStarted) { req = int(rng.below(8)) < p.phases[ph].first; dat = rng.next() & mask; }
 			else { req = false; dat = 0; }
 			simu(push) = req ? '1' : '0'; simu(pushData) = dat;
+			if (p.mid && ph >= 0 && pushStarted && popStarted) {
+				// mid-cycle change of the pop request (legal: it is stable around the pop clock's own edge)
+				popDriven = int(rng.below(8)) < p.phases[ph].second;
+				simu(pop) = popDriven ? '1' : '0';
+			}
 		}
 	});
 	s.addSimulationProcess([&]()->SimProcess {
 		vh::Rng rng(p.seed * 2 + 2);
-		bool req = false;
 		simu(pop) = '0';
 		while (true) {
 			co_await OnClk(rd);
-			sample('O', false, 0, req);
+			sample('O', false, 0, popDriven);
 			popStarted = true;
 			int ph = phaseOf();
-			if (ph >= 0 && pushStarted && popStarted) req = int(rng.below(8)) < p.phases[ph].second;
-			else req = false;
-			simu(pop) = req ? '1' : '0';
+			if (ph >= 0 && pushStarted && popStarted) popDriven = int(rng.below(8)) < p.phases[ph].second;
+			else popDriven = false;
+			simu(pop) = popDriven ? '1' : '0';
 		}
 	});
 	s.compileProgram(design.getCircuit());
@@ -304,6 +330,42 @@ std::vector<Params> genCases(uint64_t seed, const std::string &tier)
 	return cs;
 }
 
+// clock-relation family: every way the Clock API relates the pop clock to the push clock x the clock scope of generate()
+// x pop requests that change mid-cycle.  Everything but "same" must come out as a dual-clock FIFO with synchronisers.
+std::vector<Params> genRel(uint64_t seed, const std::string &tier)
+{
+	std::vector<Params> cs;
+	vh::Rng rng(seed * 15485863 + (tier == "quick" ? 21 : tier == "thorough" ? 22 : 23));
+	size_t rounds = tier == "quick" ? 1 : tier == "thorough" ? 6 : 3;
+	size_t idx = 0;
+	std::vector<size_t> depths = { 2, 4, 8, 16 };
+	for (size_t rd = 0; rd < rounds; rd++)
+		for (std::string rel : { "same", "fall", "both", "mul2", "div2", "swapfall", "indep" })
+			for (char gs : { 'P', 'O', 'T' })
+				for (int mid = 0; mid < 2; mid++) {
+					if (rel == "same" && (gs != 'P' || mid)) continue;       // one clock: generate() has to run in its scope
+					if (mid && rel != "fall") continue;                        // mid-cycle changes need edges that never coincide
+					for (int rep = 0; rep < (rel == "fall" || rel == "both" ? 2 : 1); rep++) {
+						Params p;
+						p.id = "r" + std::to_string(idx++);
+						p.rel = rel; p.genScope = gs; p.mid = mid != 0;
+						p.dual = rel != "same";
+						p.fp = 1 + rng.below(2); p.fo = rel == "indep" ? p.fp : p.fp;   // indep: two root clocks of the SAME frequency
+						p.minDepth = depths[rng.below(depths.size())];
+						p.pp = rng.below(4) != 0;
+						p.seed = rng.next() % 1000000007ull;
+						size_t depth = 1; while (depth < p.minDepth) depth <<= 1;
+						p.lvlF = rng.below(2) ? 2 % depth : rng.below(depth);
+						p.lvlE = rng.below(2) ? 2 % (depth + 1) : rng.below(depth + 1);
+						if (rel == "same") { p.latKind = rng.below(2) ? 'D' : 'S'; p.latVal = 1 + rng.below(3); }
+						else switch (rng.below(4)) { case 0: p.latKind = 'S'; p.latVal = 4 + rng.below(2); break; case 1: p.latKind = 'L'; p.latVal = rng.below(6); break; default: p.latKind = 'D'; }
+						p.phases = mkPhases(rng, int(rng.below(4)));
+						cs.push_back(p);
+					}
+				}
+	return cs;
+}
+
 Params parseParams(const std::vector<std::string> &toks)
 {
 	Params p;
@@ -327,6 +389,9 @@ Params parseParams(const std::vector<std::string> &toks)
 		else if (key == "seed") p.seed = std::stoull(v);
 		else if (key == "plen") p.plen = std::stoull(v);
 		else if (key == "w") p.w = std::stoull(v);
+		else if (key == "rel") p.rel = v;
+		else if (key == "gen") p.genScope = v[0];
+		else if (key == "mid") p.mid = v != "0";
 		else if (key == "ph" && v != "-") {
 			std::stringstream ss(v); std::string item;
 			while (std::getline(ss, item, ',')) {
@@ -748,11 +813,11 @@ int main(int argc, char **argv)
 	if (argc < 3) { fprintf(stderr, "usage: see header comment\n"); return 2; }
 	std::string mode = argv[1];
 	try {
-		if (mode == "tie") {
+		if (mode == "tie" || mode == "rel") {
 			uint64_t seed = strtoull(argv[2], nullptr, 10);
 			std::string tier = argv[3];
 			std::ofstream out(argv[4]);
-			for (auto &p : genCases(seed, tier)) {
+			for (auto &p : (mode == "tie" ? genCases(seed, tier) : genRel(seed, tier))) {
 				std::ostringstream tmp;
 				try { runCase(p, tmp); out << tmp.str(); }
 				catch (const std::exception &e) {
